@@ -13,20 +13,55 @@ import (
 	"golang.org/x/tools/go/ssa"
 )
 
-// publish-by-close fields: field -> signal channel field (frozen table, each confirmed by reading)
-var publishByClose = map[string]string{
-	"tunnelClientStream.headers":  "tunnelClientStream.gotHeadersSignal",
-	"tunnelClientStream.trailers": "tunnelClientStream.doneSignal",
-	"tunnelChannel.settings":      "tunnelChannel.awaitSettings",
-	"tunnelChannel.useRevision":   "tunnelChannel.awaitSettings",
+// publish-by-close fields: field -> signal channel field (frozen table, each confirmed by reading; the
+// names are re-derived by role on every run: what Header()/Trailer() return and wait for, and the
+// channel's settings/revision fields with the signal the receive loop closes).
+func (c *Ctx) publishByClose() map[string]string {
+	w := c.W
+	a := w.Anchors()
+	ro := w.Roles()
+	out := map[string]string{}
+	if hf, ok := c.mdFieldReturnedBy("Header"); ok {
+		if sig, ok := c.headersSignalField(); ok {
+			out[hf.String()] = sig.String()
+		}
+	}
+	if tf, ok := c.mdFieldReturnedBy("Trailer"); ok {
+		if sig, ok := c.doneSignalField(); ok {
+			out[tf.String()] = sig.String()
+		}
+	}
+	if a.Ch != nil {
+		n := a.Ch.Obj().Name()
+		out[n+"."+ro.ChSettings] = n + "." + ro.ChAwaitSettings
+		out[n+"."+ro.ChUseRevision] = n + "." + ro.ChAwaitSettings
+	}
+	return out
 }
 
 // other frozen classes, one line of reason each
-var guardedByExceptions = map[string]string{
-	"tunnelOpts.disableFlowControl": "option phase: written only by option functions, which the constructors apply before the object is shared",
-	"pendingChannel.opts":           "option phase: &p.opts is handed to option.apply during construction and read-only afterwards",
-	"ReverseTunnelServer.opts":      "option phase: &r.opts is handed to option.apply during construction and read-only afterwards",
-	"TunnelServiceHandler.tunnelOpts": "address taken to share the immutable options with tunnels; never written after construction",
+// guardedByException: option-phase state. The options struct (the receiver type of the supported-revisions
+// method) and every field of that type are written only by option functions, which the constructors apply
+// before the object is shared; afterwards they are read-only (their address is shared with tunnels).
+func (c *Ctx) guardedByException(f FieldRef) (string, bool) {
+	w := c.W
+	ro := w.Roles()
+	if ro.SupportedRevisions == nil || ro.SupportedRevisions.Signature.Recv() == nil {
+		return "", false
+	}
+	opt := namedOf(ro.SupportedRevisions.Signature.Recv().Type())
+	if opt == nil {
+		return "", false
+	}
+	if f.Type == opt.Obj().Name() {
+		return "option phase: written only by option functions, which the constructors apply before the object is shared", true
+	}
+	if ft := fieldTypeOf(w, f); ft != nil {
+		if n := namedOf(ft); n != nil && n.Obj() == opt.Obj() {
+			return "option phase: the options value is filled by option.apply during construction and is read-only afterwards (its address is shared with the tunnels it configures)", true
+		}
+	}
+	return "", false
 }
 
 func fieldTypeOf(w *World, fr FieldRef) types.Type {
@@ -51,6 +86,7 @@ func ruleGuardedBy(c *Ctx, rule string) {
 	c.rule(rule, "guarded-by: every field of every struct of the package is either never written after construction, of an atomic/sync type, consistently accessed under one lock (read side suffices for reads), published by the close of a signal channel (C15.3), or a frozen named exception")
 	w := c.W
 	lf := w.Locks()
+	pbc := c.publishByClose()
 	byField := map[FieldRef][]*FieldAccess{}
 	for _, a := range w.FieldAccesses() {
 		byField[a.Field] = append(byField[a.Field], a)
@@ -85,11 +121,11 @@ func ruleGuardedBy(c *Ctx, rule string) {
 		if writes == 0 {
 			continue // immutable after construction: nothing to guard
 		}
-		if reason, ok := guardedByExceptions[f.String()]; ok {
+		if reason, ok := c.guardedByException(f); ok {
 			c.exception(rule, key, "-", reason)
 			continue
 		}
-		if sig, ok := publishByClose[f.String()]; ok {
+		if sig, ok := pbc[f.String()]; ok {
 			// writes must be in one goroutine context and readers covered by C15.3; here: writes under a
 			// common lock or all in the single writer function
 			c.ok(rule, key, "-", "published by close of "+sig+" (reads checked by C15.3)")
@@ -159,19 +195,23 @@ func ruleCarrierWrappers(c *Ctx, rule string) {
 			continue
 		}
 		nt := recvNamed(fn)
+		sendMu, recvMu := w.wrapperMutexes(nt)
+		if sendMu == "" || recvMu == "" || sendMu == recvMu {
+			c.fail(rule, "wrapper "+nt.Obj().Name()+": separate send and receive mutexes", w.Pos(fn.Pos()), "the wrapper does not hold one mutex around its send-side and a different one around its receive-side operations (send: "+sendMu+", receive: "+recvMu+")")
+			continue
+		}
 		for _, e := range w.directEffects(fn).Effects {
-			var want string
+			var lock, want string
 			switch e.Kind {
 			case "carrier-send", "carrier-closesend":
-				want = "sendMu"
+				lock, want = sendMu, "the send mutex"
 			case "carrier-recv":
-				want = "recvMu"
+				lock, want = recvMu, "the receive mutex"
 			default:
 				continue
 			}
 			n++
 			types_[nt.Obj().Name()] = true
-			lock := nt.Obj().Name() + "." + want
 			c.check(lf.MustAt(e.Instr).has(lock), rule, w.Short(fn)+": "+e.Kind+" under "+want, w.At(e.Instr), "holds "+lock, "the embedded stream's "+e.Kind+" is not under "+lock+" (held: "+lf.MustAt(e.Instr).String()+"): two goroutines can call the gRPC stream concurrently, which it does not allow")
 		}
 	}
@@ -179,7 +219,7 @@ func ruleCarrierWrappers(c *Ctx, rule string) {
 	c.floor(rule, len(types_), 4, "carrier wrapper types")
 	// every carrier handed to a tunnel endpoint is wrapped
 	for _, name := range []string{"(*pendingChannel).Start", "newReverseChannel", "(*TunnelServiceHandler).openTunnel", "(*ReverseTunnelServer).Serve"} {
-		fn := w.Func(name)
+		fn := w.roleFunc(name)
 		if fn == nil {
 			c.fail(rule, name, "-", "not found")
 			continue
@@ -190,11 +230,10 @@ func ruleCarrierWrappers(c *Ctx, rule string) {
 			if !isC {
 				return
 			}
-			f := staticCallee(call)
-			if f == nil || (f.Name() != "newTunnelChannel" && f.Name() != "serveTunnel") {
+			if !w.isRoleCall(call, "newTunnelChannel") && !w.isRoleCall(call, "serveTunnel") {
 				return
 			}
-			if al, isAl := origin(call.Call.Args[0]).(*ssa.Alloc); isAl && strings.HasPrefix(typeNameOf(al.Type()), "threadSafe") {
+			if w.isWrapperAlloc(origin(call.Call.Args[0])) {
 				ok = true
 			}
 			// the variable may be captured by a closure (cell with two stores): the latest store dominating the call
@@ -207,7 +246,7 @@ func ruleCarrierWrappers(c *Ctx, rule string) {
 						}
 					}
 					if best != nil {
-						if al, isAl := stripConv(best.Val).(*ssa.Alloc); isAl && strings.HasPrefix(typeNameOf(al.Type()), "threadSafe") {
+						if w.isWrapperAlloc(best.Val) {
 							ok = true
 						}
 					}
@@ -223,15 +262,17 @@ func ruleHappensBeforeByClose(c *Ctx, rule string) {
 	c.rule(rule, "happens-before by close: for each field published by closing a signal channel, every write precedes the close in the writer, and every read outside the writer is dominated by a completed receive from that signal (in the reading function, or at every call site of it)")
 	w := c.W
 	lf := w.Locks()
+	pbc := c.publishByClose()
 	var names []string
-	for f := range publishByClose {
+	for f := range pbc {
 		names = append(names, f)
 	}
 	sort.Strings(names)
+	c.floor(rule, len(names), 4, "publish-by-close fields (headers, trailers, settings, revision)")
 	for _, fs := range names {
 		parts := strings.SplitN(fs, ".", 2)
 		f := FieldRef{parts[0], parts[1]}
-		sp := strings.SplitN(publishByClose[fs], ".", 2)
+		sp := strings.SplitN(pbc[fs], ".", 2)
 		sig := FieldRef{sp[0], sp[1]}
 		var writers []*ssa.Function
 		nR, nW := 0, 0
@@ -867,8 +908,14 @@ func ruleContextKeys(c *Ctx, r2, r3 string) {
 				if ex, isEx := call.Call.Args[0].(*ssa.Extract); isEx {
 					if ta, isTA := ex.Tuple.(*ssa.TypeAssert); isTA {
 						if vc, isV := ta.X.(*ssa.Call); isV && vc.Call.IsInvoke() && vc.Call.Method.Name() == "Value" && stripConv(vc.Call.Value) == ssa.Value(fn.Params[0]) {
-							want := map[string]string{"TunnelMetadataFromIncomingContext": "tunnelMetadataIncomingContextKey", "TunnelMetadataFromOutgoingContext": "tunnelMetadataOutgoingContextKey"}[name]
-							ok = keyName(vc.Call.Args[0]) == want
+							// its own key: distinct from the other accessors' keys and stored somewhere (checked above)
+							k := keyName(vc.Call.Args[0])
+							ok = k != "" && keys[k] != nil && len(keys[k].stored) >= 1
+							for _, other := range []string{"TunnelMetadataFromIncomingContext", "TunnelMetadataFromOutgoingContext", "TunnelChannelFromContext"} {
+								if other != name && w.accessorKey(other) == k {
+									ok = false
+								}
+							}
 						}
 					}
 				}
@@ -881,7 +928,7 @@ func ruleContextKeys(c *Ctx, r2, r3 string) {
 		forEachReturnValue(fn, 0, func(v ssa.Value, at ssa.Instruction) {
 			if ex, isEx := v.(*ssa.Extract); isEx {
 				if ta, isTA := ex.Tuple.(*ssa.TypeAssert); isTA {
-					if vc, isV := ta.X.(*ssa.Call); isV && vc.Call.IsInvoke() && vc.Call.Method.Name() == "Value" && keyName(vc.Call.Args[0]) == "tunnelChannelContextKey" {
+					if vc, isV := ta.X.(*ssa.Call); isV && vc.Call.IsInvoke() && vc.Call.Method.Name() == "Value" && keyName(vc.Call.Args[0]) != "" && keys[keyName(vc.Call.Args[0])] != nil {
 						ok = true
 					}
 				}
@@ -917,9 +964,10 @@ func ruleChannelIdentity(c *Ctx, r4, r5 string) {
 		allInstrs(a.Allocate, func(in ssa.Instruction) {
 			if al, isAl := in.(*ssa.Alloc); isAl && namedOf(al.Type()) != nil && a.CS != nil && namedOf(al.Type()).Obj() == a.CS.Obj() {
 				st := storesInto(al)
-				if v, has := st["ch"]; has && origin(v) == ssa.Value(a.Allocate.Params[0]) {
-					if s, has2 := st["stream"]; has2 {
-						if fr, base, isF := loadedField(s); isF && fr.Field == "stream" && origin(base) == ssa.Value(a.Allocate.Params[0]) {
+				ro := w.Roles()
+				if v, has := st[ro.StreamCh]; has && origin(v) == ssa.Value(a.Allocate.Params[0]) {
+					if s, has2 := st[ro.StreamCarrier]; has2 {
+						if fr, base, isF := loadedField(s); isF && w.isCarrierType(s.Type()) && fr.Type == a.Ch.Obj().Name() && origin(base) == ssa.Value(a.Allocate.Params[0]) {
 							okS = true
 						}
 					}
@@ -936,7 +984,7 @@ func ruleChannelIdentity(c *Ctx, r4, r5 string) {
 		{"(*TunnelServiceHandler).openTunnel", "google.golang.org/grpc/metadata.FromIncomingContext", "serveTunnel"},
 		{"(*ReverseTunnelServer).Serve", "google.golang.org/grpc/metadata.FromOutgoingContext", "serveTunnel"},
 	} {
-		fn := w.Func(p.fn)
+		fn := w.roleFunc(p.fn)
 		if fn == nil {
 			c.fail(r5, p.fn, "-", "not found")
 			continue
@@ -948,8 +996,7 @@ func ruleChannelIdentity(c *Ctx, r4, r5 string) {
 			if !isC {
 				return
 			}
-			f := staticCallee(call)
-			if f == nil || f.Name() != p.ctor {
+			if !w.isRoleCall(call, p.ctor) {
 				return
 			}
 			md := origin(call.Call.Args[1])
@@ -968,7 +1015,7 @@ func ruleChannelIdentity(c *Ctx, r4, r5 string) {
 			switch {
 			case strings.HasSuffix(d, ".Context()"):
 				ok = true // the carrier stream's own context: includes what interceptors added
-			case p.fn == "(*ReverseTunnelServer).Serve" && strings.Contains(d, "AppendToOutgoingContext(param:ctx"):
+			case p.fn == "(*ReverseTunnelServer).Serve" && isAppendOfParamCtx(src.Call.Args[0], fn):
 				ok = true // documented limitation of Serve (source comment: no access to interceptor-added metadata)
 			default:
 				why = "metadata read from context " + d + " instead of the carrier stream's Context()"
@@ -977,16 +1024,19 @@ func ruleChannelIdentity(c *Ctx, r4, r5 string) {
 		c.check(ok, r5, p.fn+": opening metadata captured from the carrier's context", posOf(w, fn), p.src[strings.LastIndex(p.src, ".")+1:]+"(carrier context) -> "+p.ctor, "the tunnel metadata handed to "+p.ctor+" is not "+p.src+" of the context the carrier was opened with ("+why+")")
 	}
 	// the channel stores what it was given and Context() derives from the carrier
-	if ntc := w.Func("newTunnelChannel"); ntc != nil {
+	if ntc := w.roleFunc("newTunnelChannel"); ntc != nil {
 		ok := false
 		okCtx := false
 		allInstrs(ntc, func(in ssa.Instruction) {
 			if al, isAl := in.(*ssa.Alloc); isAl && a.Ch != nil && namedOf(al.Type()) != nil && namedOf(al.Type()).Obj() == a.Ch.Obj() {
 				st := storesInto(al)
-				if v, has := st["tunnelMetadata"]; has && stripConv(v) == ssa.Value(ntc.Params[1]) {
+				if v, has := st[w.Roles().ChTunnelMetadata]; has && stripConv(v) == ssa.Value(ntc.Params[1]) {
 					ok = true
 				}
-				if v, has := st["ctx"]; has {
+				for _, v := range st {
+					if !strings.HasSuffix(types.TypeString(v.Type(), nil), "context.Context") {
+						continue
+					}
 					steps, root := ctxChain(v)
 					if stepNames(steps) == "WithCancel" && strings.HasSuffix(desc(root), ".Context()") {
 						okCtx = true
@@ -1258,4 +1308,14 @@ func ruleTimeoutParser(c *Ctx, r1, r2, r3 string) {
 		}
 	}
 	c.check(pos && len(got) > 0, r2, name+": units are positive", w.At(unit), "all unit constants > 0", "a unit constant is not positive: division by zero or a negated duration")
+}
+
+// isAppendOfParamCtx: v == metadata.AppendToOutgoingContext(<ctx parameter of fn>, ...)
+func isAppendOfParamCtx(v ssa.Value, fn *ssa.Function) bool {
+	call, ok := origin(v).(*ssa.Call)
+	if !ok || calleeName(call) != "google.golang.org/grpc/metadata.AppendToOutgoingContext" {
+		return false
+	}
+	p, ok := origin(call.Call.Args[0]).(*ssa.Parameter)
+	return ok && p.Parent() == fn
 }
